@@ -57,6 +57,33 @@ func addPoisonable(decls D, intField string) {
 	obj["kint"] = D{"xpath": intField, "type": "int"}
 }
 
+// addAncestorJS adds the "kanc" declaration: javascript_with_context evaluated on the record's
+// parent, a node that outlives the record (scenario family "ancestor-js").
+func addAncestorJS(w *World, decls D, o GenOpts) {
+	if o.Family != "ancestor-js" || o.NoJS {
+		return
+	}
+	obj := decls["FINAL_OUTPUT"].(D)["object"].(D)
+	obj["kanc"] = D{"xpath": "..", "custom_func": D{"name": "javascript_with_context", "args": []interface{}{D{"const": "_node"}}}}
+	w.UsesJS = true
+	w.SetTag("family", "ancestor-js")
+}
+
+// BoomValue makes the "kjs" declaration throw.
+const BoomValue = "BOOM"
+
+// addJSPoisonable adds a javascript declaration that throws when the given field holds BoomValue.
+func addJSPoisonable(t *tape.Tape, w *World, decls D, o GenOpts, fields []string) {
+	if o.NoJS || !t.Bool("gen.kjs") {
+		return
+	}
+	idx := len(fields) - 1
+	obj := decls["FINAL_OUTPUT"].(D)["object"].(D)
+	obj["kjs"] = cf("javascript", D{"const": "if (a == '" + BoomValue + "') { throw new Error('boom'); } a"}, D{"const": "a"}, D{"xpath": fields[idx]})
+	w.JSPoisonIdx = idx + 1
+	w.UsesJS = true
+}
+
 func genXML(t *tape.Tape, o GenOpts) *World {
 	w, sh, enc, bom := newGenWorld(t, "xml", o, true)
 	fn := fieldNames("F", sh.NFields)
@@ -71,6 +98,8 @@ func genXML(t *tape.Tape, o GenOpts) *World {
 	}
 	decls, js, ext := GenDecls(t, m, declOptsOf(o))
 	addPoisonable(decls, m.IntField)
+	addJSPoisonable(t, w, decls, o, fn)
+	addAncestorJS(w, decls, o)
 	target := "/root/rec"
 	if sh.SkipValue != "" {
 		target = "/root/rec[F0 != '" + sh.SkipValue + "']"
@@ -112,11 +141,14 @@ func genXML(t *tape.Tape, o GenOpts) *World {
 		w.SetTag("xml.whitespace", "1")
 	case 2:
 		w.Sep = "<!-- c --><other>x</other>"
+		if o.NoSiblingContext {
+			w.Sep = "<!-- c -->"
+		}
 	}
 	w.Suffix += "</root>"
 	drawRecs(t, w, sh, o)
 	w.Schema = BuildSchema("xml", enc, nil, decls)
-	w.UsesJS, w.Ext = js, ext
+	w.UsesJS, w.Ext = js || w.UsesJS, ext
 	w.Name = fmt.Sprintf("gen:xml(fields=%d,items=%d,recs=%d)", sh.NFields, sh.NItemFields, len(w.LRecs))
 	w.CanDup = true
 	finish(w, enc, bom)
@@ -138,6 +170,8 @@ func genJSON(t *tape.Tape, o GenOpts) *World {
 	}
 	decls, js, ext := GenDecls(t, m, declOptsOf(o))
 	addPoisonable(decls, m.IntField)
+	addJSPoisonable(t, w, decls, o, fn)
+	addAncestorJS(w, decls, o)
 	target := "/recs/*"
 	if sh.SkipValue != "" {
 		target = "/recs/*[F0 != '" + sh.SkipValue + "']"
@@ -184,7 +218,7 @@ func genJSON(t *tape.Tape, o GenOpts) *World {
 	w.Suffix = "]}"
 	drawRecs(t, w, sh, o)
 	w.Schema = BuildSchema("json", enc, nil, decls)
-	w.UsesJS, w.Ext = js, ext
+	w.UsesJS, w.Ext = js || w.UsesJS, ext
 	w.Name = fmt.Sprintf("gen:json(fields=%d,items=%d,recs=%d)", sh.NFields, sh.NItemFields, len(w.LRecs))
 	w.CanDup = true
 	finish(w, enc, bom)
